@@ -88,6 +88,10 @@ var reqHeaderPalette = [][]hdrKV{
 	{{"X-Forwarded-Proto", "https"}, {"X-Forwarded-Host", "shop.example"}},
 	{{"Via", "1.1 edge"}},
 	{{"Referer", "https://shop.example/a?b=c"}, {"Origin", "https://shop.example"}},
+	// other tracing systems' headers travel along untouched and do not change Helios' own identifiers
+	{{"traceparent", "00-4bf92f3577b34da6a3ce929d0e0e4736-00f067aa0ba902b7-01"}},
+	{{"traceparent", "00-0af7651916cd43dd8448eb211c80319c-b7ad6b7169203331-00"}, {"tracestate", "vendor=opaque"}},
+	{{"X-B3-TraceId", "463ac35c9f6413ad48485a3953bb6124"}, {"X-B3-SpanId", "a2fb4a1d1a96d312"}},
 	// field names are tokens: underscores, digits and odd casing are as good as dashes
 	{{"X_Api_Key", "k-123"}},
 	{{"x_client_build", "77"}, {"X-Tenant_Id", "t9"}},
